@@ -235,7 +235,10 @@ func (w *World) buildResponse(req *http.Request, a *Ans, now time.Time) (*http.R
 	m := M{"st": st, "ccp": a.CCP, "ma": None, "fl": []string{}, "swr": None, "sie": None, "ncf": 0}
 	ds := w.con.respDirectives(a)
 	if a.CCP == 1 {
-		lines := w.con.renderCC(ds, a.Sp)
+		lines := a.Ccl
+		if lines == nil {
+			lines = w.con.renderCC(ds, a.Sp)
+		}
 		for _, l := range lines {
 			add("Cache-Control", l)
 		}
